@@ -7,9 +7,12 @@
 //! executor with a flag waker, so `next` on a watch stream is "poll until settled" and a stream
 //! with nothing to report is the observable `pend`.
 //!
-//! Concurrent cases (`conc …`, thorough tier) run one task per program on a shared multi-thread
-//! tokio runtime and record a history with global invocation/response stamps; the Lean driver
-//! searches for a linearization of that history.
+//! Concurrent cases (`conc <seed> <set-up ops> | <program> | <program> …`) run the set-up alone,
+//! then one task per program on a shared multi-thread tokio runtime, and record a history
+//! `<task> <inv> <res> <answer>` with global invocation/response stamps; polls of a stream are
+//! single polls (`pend` if not ready).  When every task has finished its program, tasks that
+//! hold a stream drain it (extra records).  The Lean driver searches for a linearization of the
+//! history (see Driver/C18.lean for how windows and `pend` answers are treated).
 use crate::common::*;
 use std::future::Future;
 use std::pin::Pin;
